@@ -281,6 +281,9 @@ func famByValue(quick bool) []*prog.Case {
 					if (sc == "method-value-recv" || sc == "method-mutref-recv" || sc == "method-ref-recv-read") && !isStruct {
 						continue
 					}
+					if decl == "inferred" && (cname == "Arr3" || cname == "ArrS2") {
+						continue // `let a := [..]` infers a dynamic array, not [N]T
+					}
 					out = append(out, mk(fmt.Sprintf("C01/byvalue/%s/%s/%s/leaf%d", cname, sc, decl, li), func(k K) *fl.Program {
 						c := comps(k)[ci]
 						p := &fl.Program{}
